@@ -555,7 +555,22 @@ def failed_publish_consistent(ctx, db):
         for e in bulk:
             n += 1
             ok = e.get('try') is not None and bool(restore)
-            ctx.ob(rid, f, e['loc'], ok, 'the element-by-element insertion is undone or published when it throws part-way', desc='range publish can throw after partial insertion without restoring the window')
+            why = 'range publish can throw after partial insertion without restoring the window'
+            # the undo must take the partial insertion off the end it was put on: published, unread values live at the other end
+            ins = next((x for x in evl if x.get('id') in ins_ids and any(a.get('ev') == x.get('id') for a in e.get('args', []))), None)
+            at_front = ins is not None and norm(ins.get('callee') or '') == 'std::front_inserter'
+            at_back = ins is not None and norm(ins.get('callee') or '') == 'std::back_inserter'
+            for r_ in restore:
+                o_ = norm(r_.get('callee') or '').split('::')[-1]
+                a0 = ((r_.get('args') or [{}])[0].get('path') or '')
+                wrong = None
+                if at_front and (o_ in ('resize', 'pop_back', 'clear') or (o_ == 'erase' and 'begin' not in a0)):
+                    wrong = 'the items were inserted at the front, %s removes from the back (or everything): the oldest published values are dropped and the unpublished partial items stay' % o_
+                if at_back and (o_ in ('pop_front', 'clear') or (o_ == 'erase' and 'begin' in a0 and 'end' not in a0 and '+' not in a0 and False)):
+                    wrong = 'the items were inserted at the back, %s removes from the front' % o_
+                if wrong:
+                    ok = False; why = wrong
+            ctx.ob(rid, f, e['loc'], ok, 'the element-by-element insertion is undone (at the end it was made) or published when it throws part-way', desc=why)
         for e in single:
             n += 1
             ctx.ob(rid, f, e['loc'], True, 'single-element insertion (strong exception guarantee of std::deque at either end)')
